@@ -394,10 +394,10 @@ def run(eng, rep):
                 "at every loop head and return of trsbox / alt_trust_step by abstract interpretation over linear forms in H(.) and E_k(.) (C12-5, dfv/linrel.py).")
     rep.not_decided += ["||d|| <= delta(1+1e-8), model decrease, Cauchy decrease (numerical)", "rounding error in gnew = g + H d (the relation is decided over the reals, before the final clipping)",
                         "the optional Fortran back end (outside the analysed source)"]
-    rule_final_clipping(eng, rep)
-    rule_totality(eng, rep)
-    rule_no_stale_entries_under_a_changed_mask(eng, rep)
-    rule_gradient_relation(eng, rep)
-    rule_scan_accumulators_are_reset(eng, rep)
+    rep.guarded(rule_final_clipping, eng, rep)
+    rep.guarded(rule_totality, eng, rep)
+    rep.guarded(rule_no_stale_entries_under_a_changed_mask, eng, rep)
+    rep.guarded(rule_gradient_relation, eng, rep)
+    rep.guarded(rule_scan_accumulators_are_reset, eng, rep)
     from .mirrorrule import rule_mirror
-    rule_mirror(eng, rep, 'C12-3.lower-and-upper-bound-handling-are-reflections', ['trust_region.alt_trust_step', 'trust_region.trsbox', 'trust_region.d_within_bounds'])
+    rep.guarded(rule_mirror, eng, rep, 'C12-3.lower-and-upper-bound-handling-are-reflections', ['trust_region.alt_trust_step', 'trust_region.trsbox', 'trust_region.d_within_bounds'])
